@@ -134,7 +134,31 @@ int main() {
             } else if (op == "check") {
                 int complete; is >> complete;
                 TRes r = solver->check(complete != 0);
-                if (r == TRes::SAT) std::cout << (solver->hasNewSplits() ? "unknown\n" : "sat\n");
+                if (r == TRes::SAT) {
+                    std::cout << (solver->hasNewSplits() ? "unknown" : "sat");
+                    // theory propagation: every deduced literal comes with a reason among the asserted literals
+                    while (true) {
+                        PtAsgn_reason d = solver->getDeduction();
+                        if (d.tr == PTRef_Undef) break;
+                        int idx = -1;
+                        for (std::size_t i = 0; i < atoms.size(); ++i) if (atoms[i] == d.tr) idx = (int)i;
+                        if (idx < 0 or std::find(onStack.begin(), onStack.end(), (unsigned)idx) != onStack.end()) continue;
+                        vec<PtAsgn> reason = solver->getReasonFor(PtAsgn(d.tr, d.sgn));
+                        std::ostringstream os, tr;
+                        os << " | ded " << idx << ":" << (d.sgn == l_True ? 1 : 0) << " <-";
+                        tr << " " << (d.sgn == l_True ? (idx + 1) : -(idx + 1));
+                        for (PtAsgn a : reason) {
+                            if (a.tr == d.tr) continue;
+                            int j = -1;
+                            for (std::size_t i = 0; i < atoms.size(); ++i) if (atoms[i] == a.tr) j = (int)i;
+                            os << " " << j << ":" << (a.sgn == l_True ? 1 : 0);
+                            tr << " " << (a.sgn == l_True ? -(j + 1) : (j + 1));
+                        }
+                        opensmt::verif::line("th %p reason%s 0", sid, tr.str().c_str());
+                        std::cout << os.str();
+                    }
+                    std::cout << "\n";
+                }
                 else if (r == TRes::UNSAT) {
                     vec<PtAsgn> c; solver->getConflict(c); std::cout << "unsat" << show(c) << "\n";
                     if (depth > 0) { solver->popBacktrackPoints(1); --depth; onStack.pop_back(); }
